@@ -29,20 +29,22 @@ Requests == {"exec", "shell", "env", "subsystem", "pty-req", "channel:direct-tcp
 ConfiguredModules == {"m"}
 
 VARIABLES listener, keyfile, key, req, base, extra, paths, admitted, outcome,
-          visible          \* the modules the session can list
-vars == <<listener, keyfile, key, req, base, extra, paths, admitted, outcome, visible>>
+          visible,         \* the modules the session can list
+          wantreply        \* the want-reply flag of the exec request: the peer's to choose, it decides nothing
+vars == <<listener, keyfile, key, req, base, extra, paths, admitted, outcome, visible, wantreply>>
 
 Init == /\ listener \in Listeners /\ keyfile \in KeyFiles /\ key \in ClientKeys
         /\ (listener = "anon" => keyfile = "one-key")            \* the key file plays no role for anonymous listeners
         /\ req \in Requests
         /\ base \in Bases /\ extra \in Extras /\ paths \in PathArgs
         /\ (req # "exec" => base = <<>> /\ extra = <<>> /\ paths = <<>>)
+        /\ wantreply \in BOOLEAN /\ (req # "exec" => wantreply)
         /\ admitted = "unknown" /\ outcome = "none" /\ visible = {}
 
 Admit(l, kf, k) == l = "anon" \/ IsListed(kf, k)
 Handshake == /\ admitted = "unknown"
              /\ admitted' = (IF Admit(listener, keyfile, key) THEN "yes" ELSE "no")
-             /\ UNCHANGED <<listener, keyfile, key, req, base, extra, paths, outcome, visible>>
+             /\ UNCHANGED <<listener, keyfile, key, req, base, extra, paths, outcome, visible, wantreply>>
 
 HasBoth(b) == \E i \in 1..Len(b) : b[i] = "--server" /\ \E j \in 1..Len(b) : b[j] = "--daemon"
 Canonical == req = "exec" /\ base = <<"--server", "--daemon">> /\ extra = <<>> /\ paths = <<".">>     \* what rsync -e ssh sends for host::module
@@ -54,7 +56,7 @@ Serve == /\ admitted = "yes" /\ outcome = "none"
                           ELSE {"refused", "command"})              \* an authorised user may run rsync over ssh
          /\ visible' = (IF outcome' = "daemon-protocol" THEN ConfiguredModules ELSE {})
          /\ (Canonical => outcome' = "daemon-protocol")           \* the daemon itself stays reachable
-         /\ UNCHANGED <<listener, keyfile, key, req, base, extra, paths, admitted>>
+         /\ UNCHANGED <<listener, keyfile, key, req, base, extra, paths, admitted, wantreply>>
 Done == (admitted = "no" \/ outcome # "none") /\ UNCHANGED vars
 Next == Handshake \/ Serve \/ Done
 Spec == Init /\ [][Next]_vars
@@ -68,7 +70,7 @@ DaemonReachable == (Canonical /\ outcome # "none") => outcome = "daemon-protocol
 OutFile == IOEnv.VERIF_OUT
 Emit == (admitted = "unknown") =>
   CSVWrite("%1$s", <<ToJson([listener |-> listener, keyfile |-> keyfile, key |-> key, req |-> req, base |-> base, extra |-> extra, paths |-> paths,
-                             admit |-> Admit(listener, keyfile, key), both |-> HasBoth(base), canonical |-> Canonical])>>, OutFile)
+                             admit |-> Admit(listener, keyfile, key), both |-> HasBoth(base), canonical |-> (Canonical /\ wantreply), noreply |-> ~wantreply])>>, OutFile)
 GenNext == FALSE /\ UNCHANGED vars
 GenSpec == Init /\ [][GenNext]_vars
 =============================================================================
